@@ -369,7 +369,14 @@ def _eval_wrap(case):
         finally:
             shutil.rmtree(tmp, ignore_errors=True)
     else:
-        r = float(I.mk_pose("SE2", [1.0, -2.0, a])[2])
+        pz = I.mk_pose("SE2", [1.0, -2.0, 0.75])
+        pz.inverse  # history: inverse evaluated, then the pose is rewritten in place with the pose under test
+        p_ = I.mk_pose("SE2", [1.0, -2.0, a])
+        r = float(p_[2])
+        np.asarray(pz)[...] = np.asarray(p_)
+        ri = float(pz.inverse[2])
+        if not (-math.pi <= ri <= math.pi) or not congruent(ri, -Fraction(r), Fraction(16 * math.ulp(4.0))):
+            msgs.append("inverse after an in-place rewrite of the pose: angle %.17g is not congruent to minus the stored angle %.17g" % (ri, r))
     if not (-math.pi <= r <= math.pi):
         msgs.append("%s(%r) = %.17g is outside [-pi, pi]" % (case["t"], a, r))
     ex, k = G.wrap_exact(a)
@@ -384,7 +391,12 @@ def _eval_norm(case):
     q = [case["sign"] * case["scale"] * x for x in case["q"]]
     p = I.mk_pose("SE3", [1.0, 2.0, 3.0] + q)
     R0 = G.rot_se3(case["q"])
+    p.inverse  # history: the inverse was already asked for before the pose is normalised in place
     p.normalize()
+    ci = I.comps(p.inverse)
+    ni = math.sqrt(sum(x * x for x in ci[3:]))
+    if abs(ni - 1.0) > 8 * EPS:
+        msgs.append("inverse of a freshly normalised pose has a quaternion of norm %.17g (the inverse had been evaluated before normalize())" % ni)
     c = I.comps(p)
     n = math.sqrt(sum(x * x for x in c[3:]))
     if abs(n - 1.0) > 4 * EPS:
